@@ -364,13 +364,20 @@ pub fn run_check(cfg: CheckCfg, specs: Vec<WorkerSpec>, corpus_info: Value) -> i
     // determinism: re-run a sample, logs must be identical
     let mut det_checked = 0usize;
     let mut det_div = vec![];
-    if cfg.det_pairs > 0 && !results.is_empty() {
-        let step = (results.len() / cfg.det_pairs).max(1);
+    // BSSIM_DET_PAIRS overrides the sample size (diagnosis: "all" repeats every run)
+    let det_pairs = match std::env::var("BSSIM_DET_PAIRS").ok().as_deref() {
+        Some("all") => results.len(),
+        Some(n) => n.parse().unwrap_or(cfg.det_pairs),
+        None => cfg.det_pairs,
+    };
+    let mut det_backstop = 0usize;
+    if det_pairs > 0 && !results.is_empty() {
+        let step = (results.len() / det_pairs).max(1);
         let sample: Vec<(usize, WorkerSpec)> = results
             .iter()
             .enumerate()
             .step_by(step)
-            .take(cfg.det_pairs)
+            .take(det_pairs)
             .map(|(i, r)| {
                 let mut s = r.spec.clone();
                 s.out = format!("{}.det", s.out);
@@ -398,6 +405,17 @@ pub fn run_check(cfg: CheckCfg, specs: Vec<WorkerSpec>, corpus_info: Value) -> i
             if failed1 && failed2 && (no_log(r1) || no_log(&r2)) {
                 continue; // both executions failed, one of them without a log to compare
             }
+            // The wall-clock backstop is outside the simulated world (it only fires when the
+            // machine is overloaded or a run really hangs; a real hang shows in both executions
+            // and is reported as a violation by the main pass): one execution cut by it while the
+            // other one completed is counted, not compared.
+            if (r1.verdict == "timeout") != (r2.verdict == "timeout") {
+                let n = l1.len().min(l2.len());
+                if l1[..n] == l2[..n] {
+                    det_backstop += 1;
+                    continue;
+                }
+            }
             let same = if failed1 && failed2 {
                 // panics report through the partial log: compare the common prefix
                 let n = l1.len().min(l2.len());
@@ -407,8 +425,17 @@ pub fn run_check(cfg: CheckCfg, specs: Vec<WorkerSpec>, corpus_info: Value) -> i
             };
             if !same {
                 let k = r1.log.iter().zip(r2.log.iter()).position(|(a, b)| a != b).unwrap_or(r1.log.len().min(r2.log.len()));
+                if let Ok(d) = std::env::var("BSSIM_DIV_DUMP") {
+                    let _ = std::fs::write(format!("{d}/div_{}_a.log", results[i].spec.run_idx), r1.log.join("\n"));
+                    let _ = std::fs::write(format!("{d}/div_{}_b.log", results[i].spec.run_idx), r2.log.join("\n"));
+                }
                 det_div.push(format!("run {} diverges at log line {k}: {:?} vs {:?} (verdicts {} / {})", results[i].spec.run_idx, r1.log.get(k), r2.log.get(k), r1.verdict, r2.verdict));
             }
+        }
+    }
+    if let Ok(d) = std::env::var("BSSIM_LOG_DUMP") {
+        for r in &results {
+            let _ = std::fs::write(format!("{d}/run_{}_{}.log", r.spec.mode, r.spec.run_idx), r.res.log.join("\n"));
         }
     }
     let t_det = t0.elapsed().as_secs_f64() - t_runs;
@@ -537,6 +564,7 @@ pub fn run_check(cfg: CheckCfg, specs: Vec<WorkerSpec>, corpus_info: Value) -> i
             "determinism_pairs_checked": det_checked,
             "determinism_divergences": det_div.len(),
             "wall_clock_backstop_fired_but_rerun_completed": infra_timeouts,
+            "determinism_pairs_cut_by_wall_clock_backstop": det_backstop,
             "violations_of_other_properties_seen_in_these_runs": foreign,
             "known_findings_hit": known_lines,
             "real_vs_stub": cfg.real_stub,
